@@ -289,3 +289,17 @@ pub fn run_ir() {
         }
     }
 }
+
+
+/// `gen render`: print the Rust source of the traits encoded by the case lines (trait k is named T<k>)
+pub fn run_render() {
+    let stdin = std::io::stdin();
+    for (k, line) in stdin.lock().lines().enumerate() {
+        let line = line.unwrap();
+        let (hd, body) = match line.find('|') { Some(i) => (&line[..i], &line[i + 1..]), None => (&line[..], "") };
+        let hdr: Vec<i64> = hd.split_whitespace().map(|t| t.parse().unwrap()).collect();
+        let rows: Vec<Vec<i64>> = body.split(';').map(|r| r.split_whitespace().map(|t| t.parse().unwrap()).collect::<Vec<i64>>()).filter(|r| !r.is_empty()).collect();
+        println!("// @@TRAIT {}", k);
+        print!("{}", render_trait(&format!("T{}", k), hdr.get(1).copied().unwrap_or(0), &rows));
+    }
+}
